@@ -7,7 +7,10 @@ use crate::wire::*;
 
 pub struct P;
 
-const MV: [(&str, Ver); 8] = [
+const MV: [(&str, Ver); 11] = [
+    ("CONNECT", Ver::V11),
+    ("OPTIONS", Ver::V11),
+    ("PATCH", Ver::V11),
     ("GET", Ver::V11),
     ("GET", Ver::V10),
     ("HEAD", Ver::V11),
@@ -118,7 +121,7 @@ fn cell(idx: u64, seed: u64, variant: u64, rec: &mut Rec) {
         x /= n;
         v
     };
-    let (method, ver) = MV[take(8)];
+    let (method, ver) = MV[take(MV.len())];
     let req_conn = REQ_CONN[take(5)];
     let hs = HS[take(5)];
     let http10_resp = take(2) == 1;
@@ -143,6 +146,11 @@ fn cell(idx: u64, seed: u64, variant: u64, rec: &mut Rec) {
     cfg.ver = ver;
     for v in req_conn {
         cfg.orig.push(("connection".into(), v.to_vec()));
+    }
+    if idx / 11 % 3 == 1 {
+        // the caller adds an unrelated header in the Prepare state: no close condition comes or goes
+        cfg.added.push((if idx % 2 == 0 { "x-added" } else { "cookie" }.into(), b"1".to_vec()));
+        rec.cov("caller-added-header-in-prepare");
     }
     let mut req_body = vec![];
     if body_method {
@@ -325,14 +333,14 @@ fn partial_redirect_cell(idx: u64, rec: &mut Rec) {
     }
 }
 
-const CELLS: u64 = 8 * 5 * 5 * 2 * 5 * 4 * 6 * 2;
+const CELLS: u64 = 11 * 5 * 5 * 2 * 5 * 4 * 6 * 2;
 
 impl Property for P {
     fn id(&self) -> &'static str {
         "C10"
     }
     fn rule(&self) -> String {
-        "exhaustive product realising the five close conditions: (method, request version) x request Connection {absent, close, keep-alive, two fields, some other token} x Expect handshake {none, 100 received, gave up, refused bare, refused with fields} x response version x status {200, 302, 404, 307, 102} x framing {length, chunked, bare, zero length} x response Connection {absent, close, keep-alive, two fields either order, some other token} x {no, one} unsolicited 100 Continue in front of the final response; every cell is a full exchange driven to Cleanup (through Redirect for 3xx), once with one-shot I/O and again under random segmentation schedules; must_close_connection()/close_reason() at Redirect and Cleanup are compared with the disjunction computed from the description. class = condition bit-vector x exit path.".into()
+        "exhaustive product realising the five close conditions: (method, request version) x request Connection {absent, close, keep-alive, two fields, some other token} x Expect handshake {none, 100 received, gave up, refused bare, refused with fields} x response version x status {200, 302, 404, 307, 102} x framing {length, chunked, bare, zero length} x response Connection {absent, close, keep-alive, two fields either order, some other token} x {no, one} unsolicited 100 Continue in front of the final response; every cell is a full exchange driven to Cleanup (through Redirect for 3xx), once with one-shot I/O and again under random segmentation schedules; must_close_connection()/close_reason() at Redirect and Cleanup are compared with the disjunction computed from the description. Methods: GET/HEAD/DELETE/POST/PUT/CONNECT/OPTIONS/PATCH; a third of the cells add an unrelated header through Flow::header() in Prepare. class = condition bit-vector x exit path.".into()
     }
     fn assumptions(&self) -> Vec<String> {
         vec![
